@@ -76,11 +76,27 @@ def pair_convergence(h):
         ckw["routing_id"] = some(blob(idb))
     if mech:
         u, pw = h.bytes("user", 1), h.bytes("pass", 1)
-        pw2 = h.bytes("pass2", 1)
+        cu, cp, su, sp = list(u), list(pw), list(u), list(pw)       # client / server user and password
         if mech == 2:
-            h.assume(pw[0] != pw2[0])
-        for kw, p in ((ckw, pw), (skw, pw if mech == 1 else pw2)):
-            kw.update(security_enabled=True, use_plain=True, plain_username_for_engine=some(Seq("string", list(u))),
+            # the ways two credential pairs can be unequal: a differing byte at equal length, or one side's value
+            # being a proper prefix of the other's (user or password, either direction) - all bytes symbolic
+            shapes = h.params.get("uneq_shapes", [0, 1, 2, 3, 4])
+            shape = shapes[h.choose(len(shapes), "uneq_shape")]
+            extra = h.bytes("extra", 1)
+            if shape == 0:
+                sp = list(h.bytes("pass2", 1))
+                h.assume(pw[0] != sp[0])
+            elif shape == 1:
+                cp = cp + list(extra)          # client sends the server's password plus one more byte
+            elif shape == 2:
+                sp = sp + list(extra)          # client sends a proper prefix of the server's password
+            elif shape == 3:
+                cu = cu + list(extra)
+            else:
+                su = su + list(extra)
+            h.cover(f"c05.pair.uneq-shape-{shape}")
+        for kw, uu, p in ((ckw, cu, cp), (skw, su, sp)):
+            kw.update(security_enabled=True, use_plain=True, plain_username_for_engine=some(Seq("string", list(uu))),
                       plain_password_for_engine=some(Seq("string", list(p))))
     c = mk_engine(h, False, mk_config(h, **ckw))
     s = mk_engine(h, True, mk_config(h, **skw))
